@@ -558,6 +558,12 @@ func (e *Env) OpFck(c Cfg, f Filter, cmd string, args [][]byte) {
 		e.S.Op(line, "idx="+idxS+" pass "+ArgList(out))
 	}
 	want, wrej, class := WantFilterCmdKey(e.Eff(c), cmd, args)
+	if asciiLower(cmd) == "mset" && len(args)%2 == 1 && class != "norules" && class != "all_accepted" && class != "none_accepted" {
+		// a key without a value: no source propagates it and the property does not say what
+		// its projection is; left to the model diff
+		e.S.Count("fck_malformed_mset")
+		return
+	}
 	e.S.Count("fck_" + class)
 	if ok {
 		e.S.Count("cmdshape_" + asciiLower(cmd))
